@@ -40,14 +40,16 @@ Dispatch(o) ==
 ReplyMatches(o, r) ==
   IF o.name = "Load" /\ r.r = "notok" THEN reply'.r \in {"notfound", "expired"} ELSE reply' = r
 
-TraceOp ==
+(* the operation of the line with its reply, clock and metrics - without the contents *)
+TraceOpNoState ==
   /\ l <= Len(Trace) /\ Ev.ev = "op"
   /\ l' = l + 1
   /\ Dispatch(Ev.op)
   /\ ReplyMatches(Ev.op, Ev.reply)
   /\ now' = Ev.now
-  /\ StateProj' = SetOf(Ev.st)
   /\ \A x \in Metrics : met'[x] = Ev.met[x]
+
+TraceOp == TraceOpNoState /\ StateProj' = SetOf(Ev.st)
 
 TraceReset ==
   /\ l <= Len(Trace) /\ Ev.ev = "reset"
